@@ -27,8 +27,16 @@ func (r govcRecord) LogPdf(s Scalar, c, k int) error {
 }
 
 func govcHmm(m, n int) (*Hmm, govcRecord, []float64, []float64) {
+  h, rec, pi, tr, _ := govcHmmX(m, n, false, nil, false)
+  return h, rec, pi, tr
+}
+
+// govcHmmX: optionally a last-transition matrix Tf with its own symbols, a state-to-emission map, and
+// Real64 parameters (generic route) instead of Float64 ones (specialised route)
+func govcHmmX(m, n int, distinctTf bool, stateMap []int, real bool) (*Hmm, govcRecord, []float64, []float64, []float64) {
   pi := make([]float64, m)
   tr := make([]float64, m*m)
+  tf := make([]float64, m*m)
   e := make([][]float64, m)
   for i := 0; i < m; i++ {
     pi[i] = govcSym(fmt.Sprintf("pi%d", i))
@@ -38,15 +46,49 @@ func govcHmm(m, n int) (*Hmm, govcRecord, []float64, []float64) {
     }
     for j := 0; j < m; j++ {
       tr[i*m+j] = govcSym(fmt.Sprintf("t%d%d", i, j))
+      if distinctTf {
+        tf[i*m+j] = govcSym(fmt.Sprintf("f%d%d", i, j))
+      } else {
+        tf[i*m+j] = tr[i*m+j]
+      }
     }
   }
-  pv := HmmProbabilityVector{NewDenseFloat64Vector(append([]float64{}, pi...)), NullFloat64(), NullFloat64()}
-  tm := HmmTransitionMatrix{NewDenseFloat64Matrix(append([]float64{}, tr...), m, m), NullFloat64(), NullFloat64()}
-  h, err := newHmm(pv, tm, nil, m, false)
+  mkv := func(x []float64) Vector {
+    if real {
+      v := NullDenseReal64Vector(len(x))
+      for i := range x {
+        v.At(i).SetFloat64(x[i])
+      }
+      return v
+    }
+    return NewDenseFloat64Vector(append([]float64{}, x...))
+  }
+  mkm := func(x []float64) Matrix {
+    if real {
+      a := NullDenseReal64Matrix(m, m)
+      for i := 0; i < m; i++ {
+        for j := 0; j < m; j++ {
+          a.At(i, j).SetFloat64(x[i*m+j])
+        }
+      }
+      return a
+    }
+    return NewDenseFloat64Matrix(append([]float64{}, x...), m, m)
+  }
+  tmp := func() Scalar {
+    if real {
+      return NullReal64()
+    }
+    return NullFloat64()
+  }
+  h, err := newHmm(HmmProbabilityVector{mkv(pi), tmp(), tmp()}, HmmTransitionMatrix{mkm(tr), tmp(), tmp()}, stateMap, m, false)
   if err != nil {
     panic(err)
   }
-  return h, govcRecord{e}, pi, tr
+  if distinctTf {
+    h.Tf = HmmTransitionMatrix{mkm(tf), tmp(), tmp()}
+  }
+  return h, govcRecord{e}, pi, tr, tf
 }
 
 // sum over all hidden paths of exp(score); optionally restricted to paths with state s at position k
@@ -157,6 +199,104 @@ func GovcC15FastEqualsGeneric22() {
     for k := 0; k < n; k++ {
       govcCheckEq(fmt.Sprintf("alpha[%d,%d] float = generic", i, k), math.Exp(a1.ConstAt(i, k).GetFloat64()), math.Exp(a2.ConstAt(i, k).GetFloat64()))
       govcCheckEq(fmt.Sprintf("beta[%d,%d] float = generic", i, k), math.Exp(b1.ConstAt(i, k).GetFloat64()), math.Exp(b2.ConstAt(i, k).GetFloat64()))
+    }
+  }
+}
+
+// path score with a state map and a separate matrix for the last transition
+func govcScore(p []int, m int, pi, tr, tf []float64, e [][]float64, sm []int) float64 {
+  n := len(p)
+  s := pi[p[0]] + e[sm[p[0]]][0]
+  for t := 1; t < n; t++ {
+    if t == n-1 {
+      s += tf[p[t-1]*m+p[t]]
+    } else {
+      s += tr[p[t-1]*m+p[t]]
+    }
+    s += e[sm[p[t]]][t]
+  }
+  return s
+}
+
+// three observations, swapped state-to-emission map, separate last-transition scores: Viterbi
+func GovcC15Viterbi23() {
+  m, n := 2, 3
+  sm := []int{1, 0}
+  h, rec, pi, tr, tf := govcHmmX(m, n, true, sm, false)
+  path, err := h.Viterbi(rec)
+  if err != nil {
+    govcNote("error path")
+    return
+  }
+  best := govcScore(path, m, pi, tr, tf, rec.e, sm)
+  for a := 0; a < m; a++ {
+    for b := 0; b < m; b++ {
+      for c := 0; c < m; c++ {
+        govcCheck(fmt.Sprintf("viterbi path at least as good as [%d %d %d]", a, b, c), best >= govcScore([]int{a, b, c}, m, pi, tr, tf, rec.e, sm))
+      }
+    }
+  }
+}
+
+// three observations: the forward table at the first two positions and the backward table at the last
+// two, against their defining sums (state map swapped, separate last-transition scores), on the
+// float-specialised and on the generic route
+func govcForwardBackwardInner(real bool) {
+  m, n := 2, 3
+  sm := []int{1, 0}
+  h, rec, pi, tr, tf := govcHmmX(m, n, true, sm, real)
+  alpha, beta, err := h.ForwardBackward(rec)
+  if err != nil {
+    govcCheck("no-error", false)
+    return
+  }
+  e := rec.e
+  for j := 0; j < m; j++ {
+    govcCheckEq(fmt.Sprintf("alpha[%d,0]", j), alpha.ConstAt(j, 0).GetFloat64(), pi[j]+e[sm[j]][0])
+    s := 0.0
+    for i := 0; i < m; i++ {
+      s += math.Exp(pi[i] + e[sm[i]][0] + tr[i*m+j] + e[sm[j]][1])
+    }
+    govcCheckEq(fmt.Sprintf("exp alpha[%d,1]", j), math.Exp(alpha.ConstAt(j, 1).GetFloat64()), s)
+    govcCheckEq(fmt.Sprintf("beta[%d,2]", j), beta.ConstAt(j, 2).GetFloat64(), 0.0)
+    b := 0.0
+    for k := 0; k < m; k++ {
+      b += math.Exp(tf[j*m+k] + e[sm[k]][2])
+    }
+    govcCheckEq(fmt.Sprintf("exp beta[%d,1]", j), math.Exp(beta.ConstAt(j, 1).GetFloat64()), b)
+  }
+}
+
+func GovcC15ForwardBackwardInnerFloat() { govcForwardBackwardInner(false) }
+func GovcC15ForwardBackwardInnerReal()  { govcForwardBackwardInner(true) }
+
+// work tables that are larger than the record and hold other values (Baum-Welch re-uses one pair of
+// tables for records of different lengths): the result must not depend on their previous content
+func GovcC15ReusedTables() {
+  m, n := 2, 2
+  h, rec, _, _ := govcHmm(m, n)
+  fresh1, fresh2, err := h.ForwardBackward(rec)
+  if err != nil {
+    govcCheck("no-error", false)
+    return
+  }
+  alpha := NullDenseFloat64Matrix(m, 3)
+  beta := NullDenseFloat64Matrix(m, 3)
+  for i := 0; i < m; i++ {
+    for k := 0; k < 3; k++ {
+      alpha.At(i, k).SetFloat64(7.0)
+      beta.At(i, k).SetFloat64(7.0)
+    }
+  }
+  a, b, err := h.float64ForwardBackward(rec, alpha, beta)
+  if err != nil {
+    govcCheck("no-error(reused)", false)
+    return
+  }
+  for i := 0; i < m; i++ {
+    for k := 0; k < n; k++ {
+      govcCheckEq(fmt.Sprintf("alpha[%d,%d] reused = fresh", i, k), math.Exp(a.ConstAt(i, k).GetFloat64()), math.Exp(fresh1.ConstAt(i, k).GetFloat64()))
+      govcCheckEq(fmt.Sprintf("beta[%d,%d] reused = fresh", i, k), math.Exp(b.ConstAt(i, k).GetFloat64()), math.Exp(fresh2.ConstAt(i, k).GetFloat64()))
     }
   }
 }
